@@ -141,6 +141,15 @@ class StrV:
         self.s = s
 
 
+class IterV:
+    """an abstract iterator over a known finite list of symbolic items"""
+    def __init__(self, items):
+        self.items = list(items)
+
+    def __repr__(self):
+        return "Iter(%d)" % len(self.items)
+
+
 class DimV:
     """a nalgebra dimension value (Const<N>, Dyn(n), U1)"""
     def __init__(self, name):
@@ -497,6 +506,12 @@ class Interp:
         if name in ("from", "into") and len(a) == 1:
             if path.endswith("NumCast::from"):
                 return Opt(True, x)
+            tgt = self.F.adt_name(e["t"]) if e is not None and "t" in e else None
+            if tgt is not None and tgt in self.F.adts and isinstance(x, Sc):
+                for imp in self.F.impls_of("From", tgt):
+                    b = self.F.impl_item(imp, "from")
+                    if b is not None:
+                        return self.call_body(b, [x], e)
             if isinstance(x, Sc):
                 return x
             if isinstance(x, (Rec, Mat)):
@@ -523,6 +538,13 @@ class Interp:
             if name in ("all", "none", "any"):
                 # SimdBool = bool
                 return BoolV(x.b if name != "none" else not x.b)
+        if isinstance(x, IterV):
+            if name == "fold" and len(args) == 3:
+                acc = args[1]
+                for item in x.items:
+                    acc = self.call_closure(unref(args[2]), [acc, item], e)
+                return acc
+            self.unsupported("iterator method %s" % name, e)
         if isinstance(x, Rec):
             return self.dyn_dispatch(name, c, a, args, e)
         self.unsupported("leaf call %s (%s) on %r" % (name, path, x), e)
